@@ -252,7 +252,13 @@ fn g_iphdrs(t: &mut Tape) -> Rec {
         let small = !t.chance(1, 8);
         Rec::new("iphdrs").sn("v", 4).sr("ip", g_ipv4(t)).sr("exts", g_ipv4exts(t, small)).sn("pl", pl)
     } else {
-        Rec::new("iphdrs").sn("v", 6).sr("ip", g_ipv6(t)).sr("exts", g_ipv6exts(t, true)).sn("pl", pl)
+        let r = Rec::new("iphdrs").sn("v", 6).sr("ip", g_ipv6(t)).sr("exts", g_ipv6exts(t, true)).sn("pl", pl);
+        // payload length 0 = "up to the end of the enclosing data" (documented; RFC 2675 form)
+        if t.chance(1, 8) {
+            r.sn("plen0", 1)
+        } else {
+            r
+        }
     }
 }
 
